@@ -28,7 +28,7 @@ use write_fonts::read::FontRef;
 const FONTC: &str = "/verif/work/repo-target/debug/fontc";
 const TARGET_DIR: &str = "/verif/work/repo-target";
 /// CPU seconds per compile (a normal compile of these sources needs well under 1 s of CPU).
-const SH_WRAPPER: &str = r#"ulimit -c 0; ulimit -v 4000000; ulimit -t "$C15_CPU"; exec timeout -s KILL 60 "$0" "$@""#;
+const SH_WRAPPER: &str = r#"ulimit -c 0; ulimit -v 4000000; ulimit -t "$C15_CPU"; exec timeout -s KILL 300 "$0" "$@""#;
 const CPU_LIMIT: u32 = 6;
 const RAYON_THREADS: &str = "4";
 /// the 1500-glyph chains of the deep-nesting corpus need about 3 s of CPU
@@ -1586,7 +1586,7 @@ fn main() {
                     }
                     Class::Timeout => {
                         let k = if cyc { "component-cycle-hang" } else { "acyclic-components-hang" };
-                        v.push((k.into(), format!("{what}: fontc did not terminate within 6 CPU-seconds / 60 s (signal {:?}, exit {:?})", r.signal, r.exit_code)));
+                        v.push((k.into(), format!("{what}: fontc did not terminate within 6 CPU-seconds / 300 s wall (signal {:?}, exit {:?})", r.signal, r.exit_code)));
                     }
                     Class::Panic101 => {
                         let site = r.panic_site.clone().unwrap_or_else(|| "unknown".into());
@@ -1725,7 +1725,7 @@ fn main() {
                             v.push((format!("malformed-input-signal:{}:{}", base.kind, opkey), format!("{what}: fontc killed by signal {:?} (exit {:?})", r.signal, r.exit_code)));
                         }
                     }
-                    Class::Timeout => v.push((format!("malformed-input-hang:{fmtkey}:{opkey}"), format!("{what}: fontc did not terminate within 6 CPU-seconds / 60 s (signal {:?}, exit {:?})", r.signal, r.exit_code))),
+                    Class::Timeout => v.push((format!("malformed-input-hang:{fmtkey}:{opkey}"), format!("{what}: fontc did not terminate within 6 CPU-seconds / 300 s wall (signal {:?}, exit {:?})", r.signal, r.exit_code))),
                     Class::Panic101 => {
                         let site = r.panic_site.clone().unwrap_or_else(|| "unknown".into());
                         v.push((format!("uncaught-panic:{site}"), format!("{what}: uncaught panic on the main thread at {site} (exit 101)")));
@@ -1761,7 +1761,7 @@ fn main() {
                         let k = if r.stack_overflow { "deep-component-nesting-stack-overflow" } else { "deep-component-nesting-signal" };
                         v.push((k.into(), format!("{what}: fontc killed by signal {:?} (exit {:?}){}", r.signal, r.exit_code, if r.stack_overflow { ", stack overflow" } else { "" })));
                     }
-                    Class::Timeout => v.push(("deep-component-nesting-hang".into(), format!("{what}: fontc did not terminate within {CPU_LIMIT_DEEP} CPU-seconds / 60 s (signal {:?}, exit {:?})", r.signal, r.exit_code))),
+                    Class::Timeout => v.push(("deep-component-nesting-hang".into(), format!("{what}: fontc did not terminate within {CPU_LIMIT_DEEP} CPU-seconds / 300 s wall (signal {:?}, exit {:?})", r.signal, r.exit_code))),
                     Class::Panic101 => {
                         let site = r.panic_site.clone().unwrap_or_else(|| "unknown".into());
                         v.push((format!("uncaught-panic:{site}"), format!("{what}: uncaught panic on the main thread at {site} (exit 101)")));
@@ -1798,7 +1798,7 @@ fn main() {
                         let k = if r.stack_overflow { "component-cycle-stack-overflow" } else { "component-cycle-abort" };
                         v.push((k.into(), format!("{what}: fontc killed by signal {:?} (exit {:?}){}", r.signal, r.exit_code, if r.stack_overflow { ", stack overflow" } else { "" })));
                     }
-                    Class::Timeout => v.push(("component-cycle-hang".into(), format!("{what}: fontc did not terminate within 6 CPU-seconds / 60 s (signal {:?}, exit {:?})", r.signal, r.exit_code))),
+                    Class::Timeout => v.push(("component-cycle-hang".into(), format!("{what}: fontc did not terminate within 6 CPU-seconds / 300 s wall (signal {:?}, exit {:?})", r.signal, r.exit_code))),
                     Class::Panic101 => {
                         let site = r.panic_site.clone().unwrap_or_else(|| "unknown".into());
                         v.push((format!("uncaught-panic:{site}"), format!("{what}: uncaught panic on the main thread at {site} (exit 101)")));
